@@ -129,10 +129,10 @@ CHECKS["C10"] = {
     "explanation": "schedule-independence theorems + source-shape sweep",
 }
 CHECKS["C11"] = {
-    "families": ["bio", "fl", "brd", "meta", "bz"],
+    "families": ["bio", "fl", "brd", "meta", "bz", "bzr"],
     "trusted_base": ["bit reader and decode-table models tied to /repo by correspondence (bio, pfx)"],
     "assumptions": ["'flate.Reader delivers everything written before a flush without asking for more input' is decided by the fl sweep (flush-point oracle), not proved"],
-    "level_text": "partial: C11_counters_exact and C11_exact_consumption (bit reader, both source kinds, any Buffered() adversary: BitsRead exact, byte offset = bytes taken, after ReadPads+Flush exactly the bytes holding the stream are gone), C11_readSymbol_no_overread (the table-lookup length suggestion never exceeds the true code length for canonical complete codes - so a ReadByte-only source is never over-read), C11_flate_input_offset (flate model: consumed = stream length at io.EOF for every schedule). OutputOffset/InputOffset of the real Readers and the trailer-left-unread check: sweep (fl, brd, meta).",
+    "level_text": "partial: C11_counters_exact and C11_exact_consumption (bit reader, both source kinds, any Buffered() adversary: BitsRead exact, byte offset = bytes taken, after ReadPads+Flush exactly the bytes holding the stream are gone), C11_readSymbol_no_overread (the table-lookup length suggestion never exceeds the true code length for canonical complete codes - so a ReadByte-only source is never over-read), C11_flate_input_offset (flate model: consumed = stream length at io.EOF for every schedule), C11_bzip2_counters (bzip2.Reader model, every schedule: OutputOffset after each Read = bytes delivered so far; InputOffset at io.EOF = length of the input; both counters are compared with the real Reader after every Read by family bzr). OutputOffset/InputOffset of the real Readers and the trailer-left-unread check: sweep (fl, brd, meta).",
     "level_note": "Trusted: Lean kernel; sweep = sampling.",
     "explanation": "exact-consumption theorems for the shared bit reader + trailer sweep",
 }
